@@ -51,6 +51,9 @@ func (h *anteH) randFeeCfg(full bool) cfgSpec {
 	s.wl = r.Rng.Intn(4) == 0
 	s.black = subset(r, []string{"frozen", "ubtc", "xeth", "ueth", "ukex", "tka"}, 0.3)
 	s.white = subset(r, []string{"frozen", "ubtc", "xeth", "ueth", "ukex", "tka"}, 0.6)
+	if r.Rng.Intn(8) == 0 {
+		s.black, s.white = nil, nil // both lists emptied (with the whitelist in force every token is frozen then)
+	}
 	for _, d := range []string{"ubtc", "xeth", "frozen", "ueth", "tka"} {
 		if !full && r.Rng.Intn(2) == 0 {
 			continue
